@@ -478,6 +478,8 @@ def axes? (fa fp sa sp : String) : Option Axes := do
   `c02.kymoseq P [iw] lr [r]|N lg [g]|N lb [b]|N [queries]`          answers (joined by `;`) of a sequence of
   `c02.scanseq fa fp sa sp [iw] lr [r]|N lg [g]|N lb [b]|N [queries]` queries on ONE object: 0,1,2 = `get_image` of
                                          red, green, blue; 3 = `get_image("rgb")`; 4 = `Kymo.shape`
+  `c02.kymoseqoff …` / `c02.scanseqoff …` (arguments of `kymoseq` / `scanseq`) the object's start after the sequence, as
+                                         a sample index into the info wave (`ObjState.off` of `stateAfter`)
   `c02.total k|s [iw] lead [counts]|N`   the image total the property promises for that colour (specification side:
                                          used samples of the shared span up to its last boundary)
   `c02.kymopure …` / `c02.scanpure …`    (arguments of `kymoseq` / `scanseq`) every query answered from scratch
@@ -536,6 +538,17 @@ def handle : List String → Option String
     let lr ← int? lr; let cr ← chan? cr; let lg ← int? lg; let cg ← chan? cg; let lb ← int? lb; let cb ← chan? cb
     if pixelsPerLine axes < 2 ∨ linesPerFrame axes < 2 ∨ qs.any (· > 3) then none
     else some (";".intercalate (runSeq (.scan axes) iw [⟨lr, cr⟩, ⟨lg, cg⟩, ⟨lb, cb⟩] ObjState.fresh qs))
+  | ["c02.kymoseqoff", p, iw, lr, cr, lg, cg, lb, cb, qs] => do
+    let p ← nat? p; let iw ← natList? iw; let qs ← natList? qs
+    let lr ← int? lr; let cr ← chan? cr; let lg ← int? lg; let cg ← chan? cg; let lb ← int? lb; let cb ← chan? cb
+    if p = 0 ∨ qs.any (· > 4) then none
+    else some (toString (stateAfter (.kymo p) iw [⟨lr, cr⟩, ⟨lg, cg⟩, ⟨lb, cb⟩] ObjState.fresh qs).off)
+  | ["c02.scanseqoff", fa, fp, sa, sp, iw, lr, cr, lg, cg, lb, cb, qs] => do
+    let axes ← axes? fa fp sa sp
+    let iw ← natList? iw; let qs ← natList? qs
+    let lr ← int? lr; let cr ← chan? cr; let lg ← int? lg; let cg ← chan? cg; let lb ← int? lb; let cb ← chan? cb
+    if pixelsPerLine axes < 2 ∨ linesPerFrame axes < 2 ∨ qs.any (· > 3) then none
+    else some (toString (stateAfter (.scan axes) iw [⟨lr, cr⟩, ⟨lg, cg⟩, ⟨lb, cb⟩] ObjState.fresh qs).off)
   | ["c02.total", kind, iw, lead, ch] => do
     let iw ← natList? iw; let lead ← int? lead; let ch ← chan? ch
     if kind != "k" && kind != "s" then none
